@@ -26,8 +26,10 @@ Definition exit_map (f : nat) : option amap :=
   | Some fd => match ana (firstn f S) gtop (f_body fd) (idmap (f_nparams fd)) with Some (a, _, _) => Some a | None => None end
   | None => None
   end.
+Definition exit_maps : list (option amap) := Eval vm_compute in (map exit_map (seq 0 (List.length names))).
+Definition exit_of (f : nat) : option amap := nthd exit_maps f None.
 Definition tainted_by (f : nat) : list nat :=
-  match exit_map f with
+  match exit_of f with
   | Some a => flat_map (fun '(v, at_) => if existsb (fun l => Nat.leb (nthd n_self f 0) l && Nat.ltb l (nthd n_explicit f 0)) (get a v) then [at_] else [])
                        (nthd attr_exit f [])
   | None => map snd (nthd attr_exit f [])
@@ -37,8 +39,21 @@ Definition tainted_attrs : list nat := Eval vm_compute in (dedup (flat_map taint
 (* For the ndarray subclasses of the package (Quaternion, QuaternionArray, DCM) the object IS its data: every array
    attribute of self counts, so a query method that rewrites self.array / self.A in place is flagged ("query method
    mutates the object's own array state", which also breaks repeatability on the same object). *)
+(* Module-level mutable objects and mutable default arguments are implicit parameters too (shared_params): they are shared
+   by every call, so writing into them, or RETURNING them (the caller may write into what it was given), makes later
+   calls depend on earlier ones. *)
+Definition shared (f : nat) : list nat := nthd shared_params f [].
+Definition returns_shared (f : nat) : bool :=
+  negb (nthd shared_ok f false) &&
+  match shared f with
+  | [] => false
+  | sh => match exit_of f with
+          | Some a => existsb (fun k => memb k sh) (get a (nthd ret_real f 0))
+          | None => true
+          end
+  end.
 Definition counted (f k : nat) : bool :=
-  Nat.ltb k (nthd n_explicit f 0) ||
+  Nat.ltb k (nthd n_explicit f 0) || memb k (shared f) ||
   existsb (fun '(p, at_) => Nat.eqb p k && (memb at_ tainted_attrs || nthd array_class f false)) (nthd attr_params f []).
 
 (* the caller arrays callable f may modify; None: the analysis gave up (treated as "may modify") *)
@@ -51,7 +66,7 @@ Definition keeps_caller_data (f : nat) : bool :=
   | Some sm => existsb (fun k => Nat.leb 1 k && Nat.ltb k (nthd n_explicit f 0)) (s_ret sm)
   | None => true
   end.
-Definition is_mutator (f : nat) : bool := match mutated f with Some [] => keeps_caller_data f | _ => true end.
+Definition is_mutator (f : nat) : bool := match mutated f with Some [] => keeps_caller_data f || returns_shared f | _ => true end.
 Definition reads_global (f : nat) : bool := match summ_of f with Some sm => match s_glob sm with [] => false | _ => true end | None => true end.
 
 Definition all_ids := seq 0 (List.length names).
